@@ -62,7 +62,7 @@ def gen_case(r, i=0):
     for _ in range(r.randint(1, 7)):
         l = r.choice(labs + labs + UNDEF)
         uses.append([variant(r, l) if l not in UNDEF else l, r.choice(["full", "collapsed", "shortcut"]),
-                     r.choice(["p", "p", "quote", "list", "em", "heading", "html"])])
+                     r.choice(["p", "p", "quote", "list", "em", "heading", "html", "footnote"])])
     # interleave: each def is a block; uses are blocks; random order
     blocks = [("def", j) for j in range(len(defs))] + [("use", j) for j in range(len(uses))]
     r.shuffle(blocks)
@@ -110,6 +110,9 @@ def gen_case(r, i=0):
                 out.append("- i %s\n" % t)
             elif place == "em":
                 out.append("a *e %s* b\n" % t)
+            elif place == "footnote":
+                # the text of a footnote is part of the document (converted with the footnotes plugin)
+                out.append("noted%d[^n%d]\n\n[^n%d]: note %s end\n" % (j, j, j, t.replace("\n", " ")))
             elif place == "html":
                 # next to inline HTML that is not an open anchor: other tags (also ones whose name begins with "a"), a closed anchor
                 out.append(r.choice(["text <abbr title=x>%s</abbr> end\n", "text <area shape=r> %s\n", "pre <b>%s</b> <i>x</i>\n", "text <AUDIO src=q> %s\n",
@@ -121,8 +124,8 @@ def gen_case(r, i=0):
             "blocks": [("def", defs[j]) if kind == "def" else ("use", None) for kind, j in blocks]}
 
 
-def _converter(m, kind):
-    md = m.create_markdown()
+def _converter(m, kind, footnotes=False):
+    md = m.create_markdown(plugins=["footnotes"] if footnotes else None)
     if kind == "toc-hook":
         # the TOC hook parses heading texts a second time, before the document's inline pass
         from mistune.toc import add_toc_hook
@@ -133,7 +136,7 @@ def _converter(m, kind):
 def observe(m, case):
     doc = case["doc"]
     kind = "toc-hook" if sum(map(ord, doc)) % 3 == 0 else "plain"
-    md = _converter(m, kind)
+    md = _converter(m, kind, "[^" in doc)
     out = md(doc)
     res = []
     for j, (lab, form, place) in enumerate(case["uses"]):
@@ -239,7 +242,7 @@ def oracle(ctx, extra):
             "rule": "1-5 labels (ASCII, German sharp s, Greek with final sigma, dotted capital I, multi-word), each defined 1-3 "
                     "times with case/white-space variants (tabs, newlines, runs) at top level, in a quote, a bullet or ordered "
                     "item, a quote in a list, or 4 containers deep; 1-7 uses (full, collapsed, shortcut form; in paragraphs, "
-                    "quotes, items, emphasis, headings, next to inline HTML that is not an open anchor) of defined and undefined labels; a third of the documents converted with add_toc_hook installed; all blocks shuffled so uses come "
+                    "quotes, items, emphasis, headings, next to inline HTML that is not an open anchor, in the text of a footnote) of defined and undefined labels; a third of the documents converted with add_toc_hook installed; all blocks shuffled so uses come "
                     "before and after definitions; expected = first definition in document order with the same key under "
                     "an independent statement of the normalisation; distinct by document",
             "samples": [json.dumps(cases[0]["doc"])]}
